@@ -616,13 +616,13 @@ func (b *Builder) PatchConfig() ([]byte, error) {
 	if b.FileType == FILETYPE_WINDOWS_SERVICE_EXE {
 		if val, ok := b.config.Config["Service Name"].(string); ok {
 			if len(val) > 0 {
-				b.compilerOptions.Defines = append(b.compilerOptions.Defines, "SERVICE_NAME=\\\""+val+"\\\"")
+				b.compilerOptions.Defines = append(b.compilerOptions.Defines, shellStringDefine("SERVICE_NAME", val))
 				if !b.silent {
 					b.SendConsoleMessage("Info", "set service name to "+val)
 				}
 			} else {
 				val = common.RandomString(6)
-				b.compilerOptions.Defines = append(b.compilerOptions.Defines, "SERVICE_NAME=\\\""+val+"\\\"")
+				b.compilerOptions.Defines = append(b.compilerOptions.Defines, shellStringDefine("SERVICE_NAME", val))
 				if !b.silent {
 					b.SendConsoleMessage("Info", "service name not specified... using random name")
 					b.SendConsoleMessage("Info", "set service name to "+val)
@@ -1107,6 +1107,16 @@ func (b *Builder) CompileCmd(cmd string) bool {
 	}
 
 	return false
+}
+
+// shellStringDefine returns the define NAME="value" for the compile command. The
+// command is run by `sh -c`, so the value is written as a C string literal and the
+// whole define as one single-quoted shell word: whatever the value contains
+// reaches the compiler as data.
+func shellStringDefine(name, value string) string {
+	var literal = strings.NewReplacer("\\", "\\\\", "\"", "\\\"", "\n", "\\n", "\r", "\\r").Replace(value)
+
+	return "'" + strings.ReplaceAll(name+"=\""+literal+"\"", "'", "'\\''") + "'"
 }
 
 func (b *Builder) GetListenerDefines() []string {
